@@ -40,6 +40,9 @@ PROPS = {
     "C07": dict(suites={"plan": dict(fields=LAYOUT, oracles=["isolated"]),
                         "exec": dict(fields=XLAYOUT, oracles=["no_overlap", "inside", "borrow_panic", "par_eq_seq(world)", "par_eq_seq(states)",
                                                               "once", "preds_done", "unexpected_panic"], kf1=True)}),
+    "C06": dict(sd=True, suites={"sysdata": dict(fields=["reads", "writes", "fetch", "alive", "after", "setup", "setupok", "driver-exception"],
+                                                 oracles=["declared_equals_borrowed", "released_after_drop", "setup_keeps_existing",
+                                                          "setup_default_value", "setup_idempotent"])}),
     "C08": dict(suites={"world": dict(fields=["outcome", "probe", "ledger", "end", "driver-exception"],
                                       oracles=["fail_preserves", "none_iff_absent", "borrow_class"])}),
     "C09": dict(suites={"world": dict(fields=["outcome", "probe", "ledger", "end", "driver-exception"],
@@ -47,7 +50,9 @@ PROPS = {
     "C10": dict(suites={"plan": dict(fields=LAYOUT + ["maxthr"], oracles=["skip_justified", "max_threads"])}),
     "C12": dict(suites={"plan": dict(fields=["tl", "tlorder", "sendable", "driver-exception"], oracles=["tl_order", "sendable", "sendable_preserves_plan"]),
                         "exec": dict(fields=XLAYOUT, oracles=["tl_on_caller", "inner_tl_on_caller", "tl_last"], kf1=True)}),
-    "C13": dict(suites={"exec": dict(fields=["builderr", "driver-exception", "setup_order", "dispose_order"], oracles=["setup_visits", "setup_keeps", "dispose_visits"])}),
+    "C13": dict(sd=True, suites={"exec": dict(fields=["builderr", "driver-exception", "setup_order", "dispose_order"], oracles=["setup_visits", "setup_keeps", "dispose_visits"]),
+                                 "sysdata": dict(fields=["setup", "setupok", "driver-exception"],
+                                                 oracles=["setup_keeps_existing", "setup_default_value", "setup_idempotent"])}),
     "C14": dict(suites={"exec": dict(fields=XLAYOUT, oracles=["panic_payload", "panic_dependents", "panic_twice", "next_dispatch", "probe_free",
                                                               "unexpected_panic"])}),
     "C18": dict(suites={"plan": dict(fields=["calls", "err", "driver-exception"], oracles=["errors_exact", "status:setup-panic", "status:run-panic"],
@@ -140,7 +145,7 @@ def main():
     # 1. build
     need_release = tier == "thorough" and spec.get("release", False)
     need_nopar = spec.get("nopar", False)
-    b = C.build_all(release=need_release, nopar=need_nopar)
+    b = C.build_all(release=need_release, nopar=need_nopar, sd=spec.get("sd", False))
     broken = []        # (what, detail) : obligations / correspondences that no longer check
     if not b["coq"][0]:
         broken.append(("coq-build", b["coq"][1]))
@@ -149,6 +154,10 @@ def main():
     harness_ok = b["harness"][0]
     if not harness_ok:
         broken.append(("harness-build", b["harness"][1]))
+    if "harness-sd" in b and not b["harness-sd"][0]:
+        # e.g. a tuple arity or a derive form that no longer compiles: the type expression is the replay
+        harness_ok = False
+        broken.append(("harness-sd-build", b["harness-sd"][1]))
 
     # 2. proofs
     proofs = check_proofs(pid, tier) if b["coq"][0] else dict(obligations=1, discharged=0, axioms=[], problems=["coq build failed"], theorems=[])
